@@ -499,6 +499,7 @@ pub fn run_generated(seed: u64, thorough: bool) -> RunOutcome {
         fees: None,
         quiesce: false,
         watchdog_target: rng.below(5) as u8,
+        genesis_difficulty: 0,
     };
     let mut w = WdWorld::new(&cfg);
     let rounds = rng.range(3, if thorough { 40 } else { 14 });
